@@ -118,10 +118,40 @@ theorem jInt_keyJ_some (k : Key) (i : Int) (h : k.toInt? = some i) : jInt (keyJ 
   cases k with
   | i n => simp only [Key.toInt?, Option.some.injEq] at h; subst h; rfl
   | s t => simp only [Key.toInt?] at h; simp only [keyJ, jInt, h]
-theorem jInt_keyJ_none (k : Key) (h : k.toInt? = none) : jInt (keyJ k) = .error (.py .valueError) := by
+/-- **named hypothesis**: the key is not a text of the class in which CPython's `int` may succeed although
+`String.toInt?` fails (surrounding white space, a leading `+`, non-ASCII digits: `pyIntLenient`) — for such a key the
+translated loader answers `unmodelled`, not `ValueError`.  Decidable; every `int` key and every text `toInt?` reads
+is plain. -/
+def keyPlain : Key → Bool
+  | .i _ => true
+  | .s t => t.toInt?.isSome || !pyIntLenient t
+
+example : keyPlain (Key.i (-3)) = true := rfl
+theorem keyPlain_of_toInt {k : Key} {i : Int} (h : k.toInt? = some i) : keyPlain k = true := by
+  cases k with
+  | i n => rfl
+  | s t => simp only [Key.toInt?] at h; simp [keyPlain, h]
+
+/-- a key that is no number: `ValueError`, or `unmodelled` when the text is in the lenient class -/
+theorem jInt_keyJ_none' (k : Key) (h : k.toInt? = none) :
+    jInt (keyJ k) = .error (.py .valueError) ∨ jInt (keyJ k) = .error .unmodelled := by
   cases k with
   | i n => simp [Key.toInt?] at h
-  | s t => simp only [Key.toInt?] at h; simp only [keyJ, jInt, h]
+  | s t =>
+    simp only [Key.toInt?] at h
+    simp only [keyJ, jInt, h]
+    cases pyIntLenient t
+    · exact Or.inl rfl
+    · exact Or.inr rfl
+
+theorem jInt_keyJ_none (k : Key) (h : k.toInt? = none) (hp : keyPlain k = true) : jInt (keyJ k) = .error (.py .valueError) := by
+  cases k with
+  | i n => simp [Key.toInt?] at h
+  | s t =>
+    simp only [Key.toInt?] at h
+    have hl : pyIntLenient t = false := by simpa [keyPlain, h] using hp
+    simp only [keyJ, jInt, h, hl]
+    rfl
 theorem jFormat_keyJ (k : Key) : jFormat (keyJ k) = .ok k.text := by cases k <;> rfl
 
 theorem lookupKey_map_of_nodup {α : Type} (f : α → PyJ) (l : List (Key × α)) (h : (l.map (·.1)).Nodup)
